@@ -28,7 +28,7 @@ from ...type import (
     GraphQLNamedType,
     GraphQLOutputType,
     get_named_type,
-    is_interface_type,
+    is_composite_type,
     is_leaf_type,
     is_list_type,
     is_non_null_type,
@@ -881,9 +881,11 @@ def collect_fields_and_fragment_spreads(
     for selection in selection_set.selections:
         if isinstance(selection, FieldNode):
             field_name = selection.name.value
+            # The lookup via the schema also finds the meta fields: __typename is
+            # a field with a return type of its own on every composite type.
             field_def = (
-                parent_type.fields.get(field_name)
-                if is_object_type(parent_type) or is_interface_type(parent_type)
+                context.schema.get_field(parent_type, field_name)
+                if is_composite_type(parent_type)
                 else None
             )
             response_name = selection.alias.value if selection.alias else field_name
